@@ -268,6 +268,7 @@ pub fn drive(a: &Args) -> i32 {
         let mut i = 0u64;
         let mut since_open = 0u64; // the writer's entry count restarts whenever the store is opened
         let mut nrot = 0u64;
+        let mut nrot_seen = 0u32;
         let mut post_rot = 0u32;
         let mut clock_step = false;
         while i < nops {
@@ -277,6 +278,7 @@ pub fn drive(a: &Args) -> i32 {
             since_open += 1;
             if long && post_rot == 0 && rotated_files(&live) > nrot {
                 nrot = rotated_files(&live);
+                nrot_seen += 1;
                 post_rot = 1; // a rotation just happened: checkpoint (clock advanced), a few armed ops, clean restart
             }
             let armed = if long { since_open >= 996 || post_rot > 0 || rng.gen_bool(0.004) } else { rng.gen_bool(0.6) };
@@ -286,7 +288,8 @@ pub fn drive(a: &Args) -> i32 {
                 // file and one right after each rotation (with the clock advanced in between, since
                 // snapshot and rotated-file names carry the wall-clock second), then a clean restart
                 let x = rng.gen_range(0..1000);
-                if post_rot == 1 { post_rot = 2; clock_step = true; 92 }
+                if post_rot == 1 && nrot_seen % 2 == 0 { post_rot = 2; clock_step = true; 92 }
+                else if post_rot == 1 { post_rot = 3; if x < 700 { 0 } else { 70 } } // every other rotation: no checkpoint, the rotated file stays
                 else if post_rot >= 2 && post_rot < 5 { post_rot += 1; if x < 700 { 0 } else { 70 } }
                 else if post_rot == 5 { post_rot = 0; 99 }
                 else if since_open == 400 { 92 }
